@@ -3,6 +3,7 @@
 //! server does (method + raw path segments -> endpoint + `PathParams`), and loop-back transports
 //! implementing `conjure_http::client::{Client, AsyncClient}` on top of a set of endpoints.
 pub mod body;
+pub mod lab;
 pub mod loopback;
 pub mod router;
 
